@@ -1,8 +1,11 @@
 //! One module per property; `collect` turns a property id into work blocks.
 pub mod common;
+pub mod derived;
 pub mod c01;
 pub mod c02;
 pub mod c03;
+pub mod c04;
+pub mod c05;
 pub mod c07;
 pub mod c08;
 pub mod c09;
@@ -17,6 +20,8 @@ pub fn collect(prop: &str, blocks: &mut Vec<Block>, setup: &mut Report) {
         "C01" => c01::collect(blocks, setup),
         "C02" => c02::collect(blocks, setup),
         "C03" => c03::collect(blocks, setup),
+        "C04" => c04::collect(blocks, setup),
+        "C05" => c05::collect(blocks, setup),
         "C07" => c07::collect(blocks, setup),
         "C08" => c08::collect(blocks, setup),
         "C09" => c09::collect(blocks, setup),
